@@ -1,6 +1,6 @@
 (* C14 — property theorems only.  Each is closed by [exact <lemma>] and followed by
    Print Assumptions; the statements are pinned here so they cannot be quietly weakened. *)
-From FB Require Import C14.Model C14.Model2 C14.Theory C14.Theory2 C14.Theory3 C14.Theory4 C14.Theory5 C14.Theory6 C14.Theory7 C14.Theory8 C14.Theory9 C14.WithC07.
+From FB Require Import C14.Model C14.Model2 C14.Theory C14.Theory2 C14.Theory3 C14.Theory4 C14.Theory5 C14.Theory6 C14.Theory7 C14.Theory8 C14.Theory9 C14.WithC07 C14.Model3 C14.Theory10.
 From FB Require C07.Model C07.Schema C07.Tree C07.TreeTheory C07.RemapTable.
 From Coq Require Import Permutation ZArith.
 
@@ -661,3 +661,55 @@ Proof.
            (conj (nr_map_method m) (conj (nr_map_field_ref m) (nr_map_method_ref m))))))).
 Qed.
 Print Assumptions C14_nest_remapper_methods.
+
+(* ---- 9. round 7: the enclosing classes nest_jar creates (nester_jar.rs: the class_version loop and ClassFile::new) ---- *)
+
+(* the loop `if class_version.is_none() || version < class_version` returns THE minimum of the versions of the jar's
+   classes under duke's order (major, then minor), whatever the entry order: v is returned iff it occurs and nothing
+   in the jar is smaller *)
+Theorem C14_class_version_is_minimum : forall vs v,
+  class_version vs = Some v <-> In v vs /\ forall w, In w vs -> version_ltb w v = false.
+Proof. exact class_version_spec. Qed.
+Print Assumptions C14_class_version_is_minimum.
+
+(* "no classes in input" exactly on a jar without classes *)
+Theorem C14_class_version_none : forall vs, class_version vs = None <-> vs = [].
+Proof. exact class_version_none. Qed.
+Print Assumptions C14_class_version_none.
+
+(* the order is duke's: major first, then minor *)
+Theorem C14_version_order : forall a b,
+  version_ltb a b = true <-> (fst a < fst b \/ (fst a = fst b /\ snd a < snd b))%N.
+Proof. exact version_ltb_spec. Qed.
+Print Assumptions C14_version_order.
+
+(* which classes are created: each missing enclosing class once; a created class is not a class of the jar and is the
+   enclosing class of a listed nest (with C14_enclosing_class_exists: every kept nest has its enclosing class) *)
+Theorem C14_created_classes : forall J T,
+  NoDup (new_classes J T) /\
+  forall c, In c (new_classes J T) -> ~ In c (jar_classes J) /\ exists n, In n T /\ n_encl n = c.
+Proof. exact new_classes_spec. Qed.
+Print Assumptions C14_created_classes.
+
+(* their class files: the minimum version, ACC_PUBLIC, super class java/lang/Object, nothing else; name (and super
+   class) through the remapper; they are the first entries of the output of nest_jar *)
+Theorem C14_created_headers : forall rm vs J T hs,
+  nest_jar_created rm vs J T = Ok hs ->
+  exists v m out,
+    class_version vs = Some v /\ jar_map (this_nests J T) = Ok m /\ nest_jar rm J T = Ok out /\
+    hs = map (created_class v (if rm then map_class m else fun c => c)) (new_classes J T) /\
+    map h_name hs = map (fun o : out_class => fst (fst o)) (firstn (length hs) out).
+Proof. exact nest_jar_created_spec. Qed.
+Print Assumptions C14_created_headers.
+
+(* the header function answers exactly when nest_jar does *)
+Theorem C14_created_ok_iff : forall rm vs J T,
+  length vs = length J ->
+  ((exists hs, nest_jar_created rm vs J T = Ok hs) <-> (exists out, nest_jar rm J T = Ok out)).
+Proof. exact nest_jar_created_ok_iff. Qed.
+Print Assumptions C14_created_ok_iff.
+
+(* non-vacuity: minimum decided by the minor version, found in the middle of the jar; one created class *)
+Theorem C14_created_example : cv_example.
+Proof. exact cv_example_holds. Qed.
+Print Assumptions C14_created_example.
